@@ -339,6 +339,9 @@ class Struct(metaclass=MetaStruct):
             self._buffer.update_from_xbuffer(
                 self._offset, value._buffer, value._offset, value._size
             )
+            if hasattr(value, "_offsets"):
+                # the dynamic fields of value may be distributed differently
+                self._offsets = dict(value._offsets)
         else:
             for field in self._fields:
                 if field.name in value:
